@@ -413,7 +413,7 @@ func (n *CNode) text() string {
 
 func init() {
 	registry["XC"] = func(c *Check) {
-		P, err := LoadC(repoDir(), true)
+		P, err := LoadC(repoDirC(), true)
 		if err != nil {
 			fmt.Println(err)
 			return
